@@ -41,7 +41,7 @@ func runRaftFidelity(c *core.Ctx) {
 			c.Bad(name+"/spec", pkgs[i].Files[0].Pos(), "raftkvs has no .tla file with an --mpcal block next to it")
 			continue
 		}
-		for _, o := range specmatch.MatchPair(pkgs[i], pr[1], tabs, c.Prog.Fset, name) {
+		for _, o := range specmatch.MatchPair(pkgs[i], pr[1], tabs, c.Prog.Fset, name, c.Prog.ReadFile) {
 			rest := strings.TrimPrefix(o.Key, name+"/")
 			if strings.HasPrefix(rest, "AClient") {
 				continue
@@ -115,7 +115,7 @@ func runSpecMatch(c *core.Ctx) {
 			c.Bad(name+"/spec", pkgs[i].Files[0].Pos(), "generated package %s has no .tla file with an --mpcal block next to it", pr[0])
 			continue
 		}
-		obs := specmatch.MatchPair(pkgs[i], pr[1], tabs, c.Prog.Fset, name)
+		obs := specmatch.MatchPair(pkgs[i], pr[1], tabs, c.Prog.Fset, name, c.Prog.ReadFile)
 		for _, o := range obs {
 			switch o.Verdict {
 			case "ok":
